@@ -265,6 +265,23 @@ def run(prog: Program) -> Results:
         for node, why, what, exc in probs:
             res.add("R-C20-6", (k, why.split(" [")[0][:60], what), f.loc(node),
                     f"{k}: `{norm(node)[:60]}` — {why}: executing it raises {exc}, an internal error that parse/rebuild must not let out")
+    # ---------------------------------------------------------------- R-C20-7 Optional fields
+    from sa.nonnull import optional_derefs
+    r7 = res.rule("R-C20-7", "no implicit AttributeError on None: a field whose declared type admits None is dereferenced "
+                  "(`self.f.x`, `self.f[...]`, `self.f(...)`) only where an identity/truth/isinstance test of that field dominates "
+                  "(branch edge, earlier operand, conditional expression, boolean local, or every call site of a closure)", floor=10)
+    ncf: dict = {}
+    for k in sorted(closure):
+        f = prog.funcs[k]
+        if f.module.startswith(skip_mod) or f.name in ("__repr__",):
+            continue
+        for n, fld, ok, how in optional_derefs(prog, f, ncf):
+            r7.instances += 1
+            r7.ob(ok, {"site": k, "deref": norm(n), "evidence": how})
+            if not ok:
+                res.add("R-C20-7", (k, "optional field dereferenced without a guard", fld), f.loc(n),
+                        f"{k}: `{norm(n)}` may be None (declared Optional) and is dereferenced on a path with no test of it: that "
+                        f"input raises AttributeError/TypeError out of parse/rebuild")
     res.tables.append(f"sa/rules/c20.py:REVIEWED_UNBOUND ({len(REVIEWED_UNBOUND)} infeasible paths)")
     res.tables.append(f"sa/rules/c20.py:REVIEWED_INDEX ({len(REVIEWED_INDEX)} grammar-shape entries)")
     res.tables.append(f"sa/rules/c20.py:REVIEWED_RAISES ({len(REVIEWED_RAISES)} entries)")
